@@ -28,6 +28,9 @@ type Machine struct {
 	Notes []Note
 	// Indexed records the index and slice expressions evaluated in range on a list.
 	Indexed map[token.Pos]bool
+	// PureUnknown, when set, names functions outside moq that have no effects: a call without a model
+	// yields unknown results instead of leaving the vocabulary.
+	PureUnknown func(fn *types.Func) bool
 	// Distinct, when set, says that a token is known to differ from a literal (e.g. an identifier
 	// token differs from "." whatever identifier it stands for).
 	Distinct func(tok, lit string) bool
@@ -281,6 +284,20 @@ func (m *Machine) CallFunc(pos token.Pos, fn *types.Func, recv Value, args []Val
 	}
 	decl := m.Prog.Decl(fn)
 	if decl == nil || decl.Body == nil || !m.Prog.IsMoqPkg(fn.Pkg()) {
+		if m.PureUnknown != nil && m.PureUnknown(fn) {
+			// a function without effects that has no model: its results are unknown (conditions on them are
+			// explored both ways, printing them is undecided)
+			m.Notes = append(m.Notes, Note{Rule: "H-UNMODELLED", Key: fn.FullName(), Pos: pos, Msg: "call of " + fn.FullName() + " has no model: its results are unknown"})
+			sig, _ := fn.Type().(*types.Signature)
+			if sig != nil && sig.Results().Len() > 1 {
+				var t Tuple
+				for i := 0; i < sig.Results().Len(); i++ {
+					t = append(t, &Unknown{Why: fmt.Sprintf("%s()#%d", fn.FullName(), i)})
+				}
+				return t, nil
+			}
+			return &Unknown{Why: fn.FullName() + "()"}, nil
+		}
 		return nil, undecided(pos, "call of %s: no model for this function outside moq's packages", fn.FullName())
 	}
 	info := m.Prog.Info(fn.Pkg())
